@@ -10,9 +10,9 @@ HERE = os.path.dirname(os.path.abspath(__file__))
 # checks that exercise a source file (directly or through its callers); EQUIV_ALL=1 runs all 20 instead
 FILE_CHECKS = {
     'periodogram.py': 'C01 C02 C05 C06 C07 C08', 'psd.py': 'C01 C02 C05 C06 C07 C08', 'correlog.py': 'C01 C02 C05 C08',
-    'correlation.py': 'C01 C03 C04 C05 C09 C12 C15', 'burg.py': 'C03 C04 C05 C08 C13 C16', 'yulewalker.py': 'C02 C03 C04 C05 C12',
-    'covar.py': 'C03 C04 C14 C15', 'modcovar.py': 'C02 C03 C04 C14', 'arma.py': 'C02 C03 C04 C05 C08 C15', 'minvar.py': 'C02 C05 C08 C16',
-    'eigenfre.py': 'C02 C03 C05 C17', 'mtm.py': 'C02 C05 C08 C18 C19', 'tools.py': 'C02 C06 C07', 'levinson.py': 'C03 C04 C10 C11 C12',
+    'correlation.py': 'C01 C03 C04 C05 C09 C12 C15', 'burg.py': 'C03 C04 C05 C07 C08 C13 C16', 'yulewalker.py': 'C02 C03 C04 C05 C07 C12',
+    'covar.py': 'C03 C04 C07 C14 C15', 'modcovar.py': 'C02 C03 C04 C14', 'arma.py': 'C02 C03 C04 C05 C07 C08 C15', 'minvar.py': 'C02 C05 C08 C16',
+    'eigenfre.py': 'C02 C03 C05 C07 C17', 'mtm.py': 'C02 C05 C08 C18 C19', 'tools.py': 'C02 C06 C07', 'levinson.py': 'C03 C04 C10 C11 C12',
     'toeplitz.py': 'C10', 'cholesky.py': 'C10', 'linear_prediction.py': 'C11', 'lpc.py': 'C12', 'linalg.py': 'C09 C14 C17',
     'window.py': 'C01 C05 C08 C20', 'criteria.py': 'C03 C13 C17', 'mydpss.c': 'C18 C19',
 }
